@@ -183,7 +183,7 @@ impl Scenario for Chunking {
     }
     fn total(&self, tier: Tier) -> u64 {
         match tier {
-            Tier::Quick => 2_500,
+            Tier::Quick => 4_000,
             Tier::Thorough => 120_000,
         }
     }
@@ -225,7 +225,9 @@ impl Scenario for Chunking {
                 comment_max: 50,
                 misc_ops: true,
             };
-            Source::Prog(gen_program(&mut r, &cfg))
+            let mut ops = gen_program(&mut r, &cfg);
+            tame_levels(&mut ops);
+            Source::Prog(ops)
         } else {
             let mut l = gen_layout(&mut r, 4, *rs.pick(&[16u64, 300, 4096, 70_000]), true);
             l.trailing = 0;
